@@ -349,7 +349,23 @@ pub fn run(a: &Args) {
                     gt::Geometry::MultiPolygon(gt::MultiPolygon::new(polys))
                 }
                 _ => match r.below(3) {
-                    0 => gt::Geometry::GeometryCollection(gt::GeometryCollection::new_from(vec![gt::Geometry::Point(gt::Point::new(0.0, 0.0))])),
+                    0 => {
+                        // collections of every make-up are refused: empty, of one kind only (polygons included), mixed, nested
+                        let poly = |r: &mut Rng| { let ext = rand_ring_n(r, 3, 3); gt::Geometry::Polygon(gt::Polygon::new(ls(&c, &ext), vec![])) };
+                        let pt = || gt::Geometry::Point(gt::Point::new(c.x(1), c.x(2)));
+                        let line = |r: &mut Rng| gt::Geometry::LineString(ls(&c, &rand_ring_n(r, 2, 3)[..]));
+                        let members: Vec<gt::Geometry<f64>> = match r.below(8) {
+                            0 => vec![],
+                            1 => vec![poly(&mut r)],
+                            2 => (0..2 + r.below(3)).map(|_| poly(&mut r)).collect(),
+                            3 => vec![pt()],
+                            4 => vec![pt(), pt(), pt()],
+                            5 => vec![line(&mut r), line(&mut r)],
+                            6 => vec![poly(&mut r), pt()],
+                            _ => vec![gt::Geometry::GeometryCollection(gt::GeometryCollection::new_from(vec![poly(&mut r), poly(&mut r)]))],
+                        };
+                        gt::Geometry::GeometryCollection(gt::GeometryCollection::new_from(members))
+                    }
                     1 => gt::Geometry::Rect(gt::Rect::new((c.x(0), c.x(0)), (c.x(1), c.x(2)))),
                     _ => gt::Geometry::Triangle(gt::Triangle::new(gt::Coord { x: c.x(0), y: c.x(0) }, gt::Coord { x: c.x(1), y: c.x(2) }, gt::Coord { x: c.x(2), y: c.x(0) })),
                 },
